@@ -4,7 +4,7 @@
 mod __verif_kani {
     use super::*;
 
-    //@ kind=P props=C31 fn=words_to_bytes,bytes_to_words : round trip bytes_to_words(words_to_bytes(w)) == w and the bytes are the native-endian bytes of each word, for symbolic word vectors (length <= 2; the cast is length-generic)
+    //@ kind=B props=C31 bound=word_vectors_of_length<=2,all_contents fn=words_to_bytes,bytes_to_words : round trip bytes_to_words(words_to_bytes(w)) == w and the bytes are the native-endian bytes of each word, for symbolic word vectors (length <= 2; the cast is length-generic)
     #[kani::proof]
     #[kani::unwind(40)]
     pub fn c31_words_bytes_roundtrip() {
@@ -39,7 +39,7 @@ mod __verif_kani {
         u64::from_ne_bytes(a)
     }
 
-    //@ kind=P props=C31 fn=bytes_to_words_vec : for a byte slice starting at ANY offset 0..8 of a buffer (the buffer object is 8-aligned in CBMC, so offsets 0..8 enumerate every alignment) and any length n*8 (n<=2): no panic and the result is the native-endian words
+    //@ kind=B props=C31 bound=lengths_0/8/16_bytes,every_alignment_offset_0..8,all_contents fn=bytes_to_words_vec : for a byte slice starting at ANY offset 0..8 of a buffer (the buffer object is 8-aligned in CBMC, so offsets 0..8 enumerate every alignment) and any length n*8 (n<=2): no panic and the result is the native-endian words
     #[kani::proof]
     #[kani::unwind(40)]
     pub fn c31_bytes_to_words_vec_any_alignment() {
@@ -54,7 +54,7 @@ mod __verif_kani {
         while i < 2 { if i < n { assert!(v[i] == expect_word(&buf, off + 8 * i)); } i += 1; }
     }
 
-    //@ kind=P props=C31 fn=try_bytes_to_words : for a slice at any offset 0..8 (any alignment) and ANY length <= 31: never panics; None for lengths that are not a multiple of 8; whenever it returns Some the words are the native-endian words
+    //@ kind=B props=C31 bound=every_length<=31_bytes,every_alignment_offset_0..8,all_contents fn=try_bytes_to_words : for a slice at any offset 0..8 (any alignment) and ANY length <= 31: never panics; None for lengths that are not a multiple of 8; whenever it returns Some the words are the native-endian words
     #[kani::proof]
     #[kani::unwind(40)]
     pub fn c31_try_bytes_to_words_no_panic() {
@@ -73,7 +73,7 @@ mod __verif_kani {
         }
     }
 
-    //@ kind=P props=C31 fn=try_bytes_to_words,bytes_to_words : for a slice whose start address is 8-byte aligned and whose length is n*8 (n<=3): both borrowed forms succeed with the native-endian words
+    //@ kind=B props=C31 bound=aligned_start,lengths_0..24_bytes,all_contents fn=try_bytes_to_words,bytes_to_words : for a slice whose start address is 8-byte aligned and whose length is n*8 (n<=3): both borrowed forms succeed with the native-endian words
     #[kani::proof]
     #[kani::unwind(40)]
     pub fn c31_borrowed_forms_aligned() {
@@ -92,7 +92,7 @@ mod __verif_kani {
         while i < 3 { if i < n { assert!(v[i] == expect_word(&buf, off + 8 * i)); } i += 1; }
     }
 
-    //@ kind=P props=C31 known=F7a fn=try_bytes_to_words : for a NON-EMPTY slice whose start address is NOT 8-byte aligned and whose length is n*8: the property demands Some(words) (None only for a bad length)
+    //@ kind=B props=C31 known=F7a bound=misaligned_start,lengths<=24_bytes fn=try_bytes_to_words : for a NON-EMPTY slice whose start address is NOT 8-byte aligned and whose length is n*8: the property demands Some(words) (None only for a bad length)
     #[kani::proof]
     #[kani::unwind(40)]
     pub fn c31_try_bytes_to_words_misaligned_start() {
@@ -105,7 +105,7 @@ mod __verif_kani {
         assert!(try_bytes_to_words(s).is_some());
     }
 
-    //@ kind=P props=C31 known=F7b fn=bytes_to_words : for a NON-EMPTY slice whose start address is NOT 8-byte aligned and whose length is n*8: the property demands that the conversion succeeds (no panic)
+    //@ kind=B props=C31 known=F7b bound=misaligned_start,lengths<=24_bytes fn=bytes_to_words : for a NON-EMPTY slice whose start address is NOT 8-byte aligned and whose length is n*8: the property demands that the conversion succeeds (no panic)
     #[kani::proof]
     #[kani::unwind(40)]
     pub fn c31_bytes_to_words_misaligned_start() {
